@@ -23,7 +23,7 @@
      the unallocated state), requests and releases match one to one: nothing leaked, nothing
      released twice, no release with a different layout. *)
 From Coq Require Import ZArith List Bool Permutation.
-From HB Require Import RsPrelude Sse2 Gen Group Raw Map Check WFDefs RawOpsSafe MapDefs AllocBalance.
+From HB Require Import RsPrelude Sse2 Gen Group Raw Map Table Check WFDefs RawOpsSafe MapDefs TableStepSafe AllocBalance AllocBalanceT.
 Import ListNotations.
 
 Theorem C03b_every_operation_is_balanced :
@@ -50,6 +50,26 @@ Theorem C03b_nothing_outstanding_after_drop :
   Permutation (allocs log) (frees log).
 Proof. exact dropped_history_releases_everything. Qed.
 
+(* the same for HashTable (table_step: find / find_mut / find_entry+remove / remove + re-insertion
+   through the vacant entry / entry / insert_unique / retain / extract_if / drain / clear / reserve /
+   try_reserve / shrink_to / shrink_to_fit / get_many_mut / iter_hash / iter / with_capacity / drop),
+   with caller-supplied hashes that may be anything *)
+Theorem C03b_every_table_operation_is_balanced :
+  forall B, WidthOK B -> BackendSpec B -> forall tsize talign, LayoutOK tsize talign ->
+  forall needs_drop hash_of alloc_refuses (t : table kv) op t' o evs,
+  top_args_ok op -> SafeWF B kv t -> TOwn B kv tsize talign t ->
+  table_step B tsize talign needs_drop true hash_of alloc_refuses t op = Ok (t', o, evs) ->
+  Permutation (allocs evs ++ blk B tsize talign t) (frees evs ++ blk B tsize talign t').
+Proof. exact table_step_bal. Qed.
+
+Theorem C03b_every_table_history_is_balanced :
+  forall B, WidthOK B -> BackendSpec B -> forall tsize talign, LayoutOK tsize talign ->
+  forall needs_drop (ops : list (tbl_op * bool * (Z -> option Z))) t' log,
+  (forall x, In x ops -> top_args_ok (fst (fst x))) ->
+  trun_log B tsize talign needs_drop (new_table B kv) ops [] = Ok (t', log) ->
+  Permutation (allocs log) (frees log ++ blk B tsize talign t').
+Proof. exact table_history_balanced. Qed.
+
 (* non-vacuity: growth through three table sizes under an all-colliding hasher, a shrink, a large
    reserve, the drop: five blocks requested, the same five released *)
 Example C03b_example :
@@ -66,3 +86,5 @@ Proof. vm_compute. repeat split. Qed.
 Print Assumptions C03b_every_operation_is_balanced.
 Print Assumptions C03b_every_history_is_balanced.
 Print Assumptions C03b_nothing_outstanding_after_drop.
+Print Assumptions C03b_every_table_operation_is_balanced.
+Print Assumptions C03b_every_table_history_is_balanced.
